@@ -82,7 +82,12 @@ func (s *vState) Precision() (int, bool)      { return 0, false }
 func (s *vState) Flag(c int) bool             { return false }
 
 //verif:harness C02 quick t=0..2
+//verif:harness C02 quick t=65..65
 //verif:harness C02 thorough t=3..12
+//verif:harness C02 thorough t=32..32
+//verif:harness C02 thorough t=64..64
+//verif:harness C02 thorough t=100..100
+//verif:harness C02 thorough t=127..127
 func H_C02_roundtrip(t int) {
 	vMergeOutcomes()
 	n := Number(vU64("n"))
